@@ -189,6 +189,12 @@ func (e *Env) sortOfName(s string) (Sort, types.Type) {
 		return ArraySort(SInt, SBool), nil
 	case "StrSet":
 		return ArraySort(SStr, SBool), nil
+	case "StrIntMap":
+		return ArraySort(SStr, SInt), nil
+	case "IntIntMap":
+		return ArraySort(SInt, SInt), nil
+	case "IfaceIntMap":
+		return ArraySort(SIface, SInt), nil
 	}
 	t := e.resolveType(s)
 	return e.u.g.reg.SortOf(t), t
@@ -255,6 +261,19 @@ func (e *Env) eval(x Expr) Val {
 
 func (e *Env) evalIdent(name string) Val {
 	u := e.u
+	if e.loop != nil && e.fr != nil && e.cur != e.old {
+		// inside a loop invariant a parameter name denotes the current value of the parameter's
+		// cell (parameters are mutable in Go); old(p) still gives the value on entry
+		if _, isVar := e.vars[name]; isVar {
+			if a, ok := e.fr.localNames[name]; ok && !a.Heap {
+				if isParamCell(e.fr.fn, a) {
+					et := a.Type().(*types.Pointer).Elem()
+					k := e.fr.localKey(a)
+					return Val{T: u.get(e.cur, k, u.g.reg.SortOf(et)), Ty: et, Addr: &Addr{local: k, valT: et}}
+				}
+			}
+		}
+	}
 	if v, ok := e.vars[name]; ok {
 		return v
 	}
@@ -377,6 +396,32 @@ func (e *Env) evalIdent(name string) Val {
 	}
 	e.fail("unknown identifier %q", name)
 	return Val{}
+}
+
+// isParamCell: a is the stack cell go/ssa (NaiveForm) spills the parameter of the same name into.
+func isParamCell(fn *ssa.Function, a *ssa.Alloc) bool {
+	if a.Block() == nil || a.Block().Index != 0 {
+		return false
+	}
+	isParam := false
+	for _, p := range fn.Params {
+		if p.Name() == a.Comment {
+			isParam = true
+		}
+	}
+	if !isParam {
+		return false
+	}
+	// only parameters the function assigns to: for the others the cell always holds the entry value
+	stores := 0
+	for _, b := range fn.Blocks {
+		for _, in := range b.Instrs {
+			if st, ok := in.(*ssa.Store); ok && st.Addr == a {
+				stores++
+			}
+		}
+	}
+	return stores > 1
 }
 
 func (e *Env) loopIter() *Iter {
@@ -809,7 +854,18 @@ func (e *Env) evalCall(x *ECall) Val {
 		}
 		dk, lk, ds, ls := u.sentKeys(v.Ty)
 		so := reg.SliceSort(reg.SortOf(ct.Elem()))
+		// the number of messages sent on a channel is a length: never negative
+		if !strings.Contains(v.T.S, "q_") {
+			u.assumeStructural(App(SBool, "<=", IntN(0), Select(u.get(e.cur, lk, ls), v.T)))
+		}
 		return Val{T: MkSlice(so, Select(u.get(e.cur, dk, ds), v.T), Select(u.get(e.cur, lk, ls), v.T)), Ty: types.NewSlice(ct.Elem())}
+	case "recvd":
+		v := e.eval(x.Args[0])
+		if _, ok := v.Ty.Underlying().(*types.Chan); !ok {
+			e.fail("recvd() of non-channel")
+		}
+		rk, rs := u.recvKey(v.Ty)
+		return spec(Select(u.get(e.cur, rk, rs), v.T))
 	case "held":
 		lk, ref := e.evalMutex(x.Args[0])
 		return spec(Select(u.get(e.cur, lk, ArraySort(SInt, SInt)), ref))
@@ -1048,6 +1104,10 @@ func (e *Env) evalLoc(x Expr) []loc {
 		if x.Name == "spawned" {
 			return []loc{{key: "G:spawned", sort: SInt, whole: true, text: x.Name}}
 		}
+		if x.Name == "recvdAll" {
+			// receives on any channel (used where the channel is not nameable, e.g. ctx.Done())
+			return []loc{{key: "RV:all", sort: ArraySort(SInt, SInt), whole: true, text: x.Name}}
+		}
 	case *ECall:
 		if id, ok := x.Fun.(*EIdent); ok {
 			switch id.Name {
@@ -1056,6 +1116,11 @@ func (e *Env) evalLoc(x Expr) []loc {
 				dk, lk, ds, ls := u.sentKeys(v.Ty)
 				r := v.T
 				return []loc{{key: dk, sort: ds, ref: &r, text: x.exprString()}, {key: lk, sort: ls, ref: &r, text: x.exprString()}}
+			case "recvd":
+				v := e.eval(x.Args[0])
+				rk, rs := u.recvKey(v.Ty)
+				r := v.T
+				return []loc{{key: rk, sort: rs, ref: &r, text: x.exprString()}}
 			case "all":
 				// all(Type.field): the field of every object
 				sel, ok := x.Args[0].(*ESel)
